@@ -237,7 +237,8 @@ def decode_and_force(msg_type: int, body: bytes, negotiated) -> tuple:
             return ('violation', f'{phase}:undefined-notify:{code}/{subcode}@{innermost_repo_frame(exc)}', str(exc)[:200])
         return ('notify', code, subcode)
     except RecursionError as exc:
-        return ('violation', f'{phase}:RecursionError@{_recursing_frame(exc)}', str(exc)[:200])
+        # same root cause (and signature) as the stack-depth clause of the work bound
+        return ('violation', f'unbounded-recursion@{_recursing_frame(exc)}', f'RecursionError while {phase}: {str(exc)[:150]}')
     except Exception as exc:  # noqa: BLE001
         return ('violation', exception_signature(phase, exc), repr(exc)[:300])
 
@@ -267,6 +268,18 @@ class Meter:
         self.depth = 0
         self.max_depth = 0
         self.inner = 0
+        self.deep = ''  # the exabgp function that recurses, noted when the depth bound is first crossed
+
+    def _note_recursion(self, frame) -> None:
+        from collections import Counter
+
+        names: Counter = Counter()
+        while frame is not None:
+            fn = frame.f_code.co_filename
+            if fn.startswith(exa.REPO_SRC):
+                names[f'{os.path.relpath(fn, exa.REPO_SRC)}:{frame.f_code.co_name}'] += 1
+            frame = frame.f_back
+        self.deep = names.most_common(1)[0][0] if names else 'outside-exabgp'
 
     def _profile(self, frame, event, arg) -> None:
         if event == 'call':
@@ -274,6 +287,8 @@ class Meter:
             self.depth += 1
             if self.depth > self.max_depth:
                 self.max_depth = self.depth
+                if self.depth == DEPTH_MAX + 1:
+                    self._note_recursion(frame)
         elif event == 'return':
             self.depth -= 1
             if arg is not None and frame.f_code.co_name in INNER_ENTRY:
@@ -295,7 +310,7 @@ def measured(msg_type: int, body: bytes, negotiated) -> tuple:
 
 
 # cost bounds: fitted on the qa seed corpus (see props/c03.py fit_report), 10x slack on both constants
-COST_A = 20000
+COST_A = 10000
 COST_B = 600
 DEPTH_MAX = 120
 
@@ -304,7 +319,7 @@ def cost_violation(meter: Meter, size: int) -> tuple | None:
     if meter.calls > COST_A + COST_B * size:
         return ('violation', 'cost:calls-superlinear', f'{meter.calls} Python calls for a {size} byte body (bound {COST_A}+{COST_B}*len)')
     if meter.max_depth > DEPTH_MAX:
-        return ('violation', 'cost:stack-depth-grows', f'stack depth {meter.max_depth} for a {size} byte body (bound {DEPTH_MAX})')
+        return ('violation', f'unbounded-recursion@{meter.deep}', f'stack depth {meter.max_depth} for a {size} byte body (bound {DEPTH_MAX}): one frame per TLV')
     return None
 
 
